@@ -314,6 +314,7 @@ def c07_extra(g, tier):
     yield from type0_sessions(g, "C07/type0")
     yield from nack_tiny_universe_sessions(g, 4 if tier == "quick" else 100, "C07/tiny")
     yield from nack_insert_sessions(g, 6 if tier == "quick" else 200, "C07/ins")
+    yield from rpsi_mode_sweep(g, "C07/rpsi")
     yield from nack_regroup_sessions(g, "C07/regroup")
 
 
@@ -464,6 +465,7 @@ def c20(g, tier):
         calls = [{"c": "new", "fci": {"f": "fir", "adds": adds}, "owned": r0.random() < 0.5}]
         yield build_session(f"C20/firlong/{i}", "pfb", calls, rt=True)
     yield from midsize_sessions(g, "C20/mid", ["fir"])
+    yield from rpsi_mode_sweep(g, "C20/rpsi")
     yield from retry_sessions(g, 150 if tier == "quick" else 4000, ["sr", "rr", "sdes", "bye", "app", "unk", "fb", "custom"], "C20/retry")
     yield from nack_insert_sessions(g, 12 if tier == "quick" else 200, "C20/ins")
     for i in range(n):
@@ -984,6 +986,35 @@ def exact_max_raw_sessions(g, sidp, rt=False, over=True):
                                     {"c": "payload", "v": [6] * (tot - 8 - pad)}, {"c": "count", "v": 20}, {"c": "padding", "v": pad}], rt=rt)
 
 
+def priv_edge_sweep(g, sidp, op="parse"):
+    """PRIV items at the edges of the two length octets: item length 1, 2, 3, 254, 255 x prefix length 0, inside,
+    length - 1 (the largest that fits), length (overruns by one) and 255, the item complete in the packet"""
+    for L in (1, 2, 3, 128, 254, 255):
+        for P in sorted({0, 1, L - 2, L - 1, L, 254, 255}):
+            if P < 0:
+                continue
+            for tail in (0, 1):          # followed directly by the terminator, or by another item first
+                body = [0, 0, 0, 9, 8, L, P] + [(0x41 + j % 26) for j in range(L - 1)] + ([1, 1, 0x7a] if tail else []) + [0]
+                body += [0] * (-len(body) % 4)
+                b = hdr(2, False, 1, 202, (4 + len(body)) // 4 - 1) + body
+                o = {"op": op, "b": b}
+                if op == "parse":
+                    o["kind"] = "sdes"
+                yield [reset(f"{sidp}/{L}/{P}/{tail}"), o]
+
+
+def rpsi_mode_sweep(g, sidp, rt=False):
+    """RPSI bit strings of 0..9 bytes x 0..8 ignored bits x the three ways of handing over the data"""
+    for n_ in range(0, 10):
+        for bits in (range(0, 9) if n_ else [0]):
+            for mode in ("borrowed", "cow_owned", "owned"):
+                data = [(0xa5 + 17 * j) % 256 for j in range(n_)]
+                if n_:
+                    data[-1] = 0xff
+                fci = {"f": "rpsi", "calls": [{"c": "pt", "v": 96}, {"c": "data", "v": data, "bits": bits, "mode": mode}]}
+                yield build_session(f"{sidp}/{n_}/{bits}/{mode}", "pfb", [{"c": "new", "fci": fci, "owned": mode == "owned"}], rt=rt)
+
+
 def item_type_sweep(g, sidp):
     """every SDES item type with an empty, a one-byte and a three-byte value: parsed from bytes and built"""
     for t in range(1, 256):
@@ -1357,6 +1388,7 @@ def c01(g, tier):
     yield from midsize_sessions(g, "C01/mid", ["sdes", "nack", "fir"])
     yield from nack_many(g, "C01/many")
     yield from irregular_pad_fci_sweep(g, "C01/irr", op="parse_all")
+    yield from priv_edge_sweep(g, "C01/privedge", op="parse_all")
     yield from item_type_sweep(g, "C01/types")
     yield from concat_sessions(g, 100 if q else 3000, "C01/concat")
     yield from many_chunks_sessions(g, "C01/chunks")
@@ -1447,6 +1479,7 @@ def c10(g, tier):
         yield ops
     yield from midsize_sessions(g, "C10/mid", ["sdes"])
     yield from item_type_sweep(g, "C10/types")
+    yield from priv_edge_sweep(g, "C10/privedge")
     yield from many_chunks_sessions(g, "C10/chunks")
     yield from giant_chunk_sessions(g, "C10/giant")
     for i in range(3000 if q else 100000):
